@@ -173,14 +173,17 @@ def discharge_text(text: str, want: list[str], z3_ms: int | None = None, cvc5_ms
 		if v == 'sat':
 			return Result('refuted', 'z3', dt, model, detail)
 		return Result('unknown', 'z3', dt, None, f'z3: {v} {detail}', tried=['z3:' + v])
-	# stage 1: a short z3 attempt (most obligations take milliseconds); stage 2: cvc5 (decides most string/sequence goals z3 leaves open);
-	# stage 3: z3 with the full budget.  For string-heavy queries the first z3 attempt is cut even shorter.
-	first = min(z3_ms, 800 if stringy else Z3_FIRST_MS)
-	v, dt, model, detail = _z3_run(text, want, first)
-	if v == 'unsat':
-		return Result('proved', 'z3', dt)
-	if v == 'sat':
-		return Result('refuted', 'z3', dt, model, detail)
+	# Non-string queries: a short z3 attempt first (milliseconds for most obligations), then cvc5 (1.4.0 binding), cvc5 (1.0.3 CLI), z3 in full.
+	# String/sequence queries: the two cvc5 builds first -- z3's sequence solver overruns its own timeout by an order of magnitude --
+	# and z3 last (it is the back end that yields counter-models).
+	v, dt, model, detail = 'skipped', 0.0, None, ''
+	hard = any(nm in text for nm in ('rf_split', 'rf_join', 'rf_replace_all', 'rf_spec_out_path'))  # recursive string functions: z3 overruns its timeout on these
+	if not hard:
+		v, dt, model, detail = _z3_run(text, want, min(z3_ms, Z3_FIRST_MS))
+		if v == 'unsat':
+			return Result('proved', 'z3', dt)
+		if v == 'sat':
+			return Result('refuted', 'z3', dt, model, detail)
 	v2, dt2, detail2 = _cvc5_run(text, cvc5_ms)
 	if v2 == 'unsat':
 		return Result('proved', 'cvc5', dt + dt2, tried=['z3:' + v])
@@ -191,13 +194,13 @@ def discharge_text(text: str, want: list[str], z3_ms: int | None = None, cvc5_ms
 			return Result('proved', 'cvc5-cli', dt + dt2, tried=['z3:' + v, 'cvc5:' + v2])
 		if v4 == 'sat':
 			v2 = 'sat'
-	if v2 != 'sat' and z3_ms > first:
-		v, dt3, model, detail = _z3_run(text, want, z3_ms)
-		dt += dt3
-		if v == 'unsat':
-			return Result('proved', 'z3', dt + dt2, tried=['cvc5:' + v2])
-		if v == 'sat':
-			return Result('refuted', 'z3', dt + dt2, model, detail)
+	v3, dt3, model, detail3 = _z3_run(text, want, z3_ms)
+	dt += dt3
+	if v3 == 'unsat':
+		return Result('proved', 'z3', dt + dt2, tried=['cvc5:' + v2])
+	if v3 == 'sat':
+		return Result('refuted', 'z3', dt + dt2, model, detail3)
+	v, detail = v3, detail3
 	if v2 == 'sat':
 		return Result('refuted', 'cvc5', dt + dt2, None, 'cvc5: sat (no model extracted)')
 	return Result('unknown', 'z3+cvc5', dt + dt2, None, f'z3: {v} {detail}; cvc5: {v2} {detail2}', tried=['z3:' + v, 'cvc5:' + v2])
